@@ -178,5 +178,16 @@ class T(unittest.TestCase):
         self.assertEqual(v.unknown, ["CSI 5i"])
 
 
+    def test_command_interleaved_in_chunked_transmission(self):
+        from vf.vterm import VTerm
+
+        t = VTerm(6, 12, "kitty")
+        t.feed("\x1b_Ga=T,f=24,s=1,v=1,c=1,r=1,m=1;AAAA\x1b\\")
+        self.assertIsNotNone(t.pending)
+        t.feed("\x1b_Ga=d,d=C;\x1b\\")
+        self.assertIsNone(t.pending)
+        self.assertTrue(any("interrupted" in a for a in t.aborted))
+
+
 if __name__ == "__main__":
     unittest.main()
